@@ -178,6 +178,11 @@ class _Proxy:
         if f is None:
             return self._f.write(data)
         v = f["variant"]
+        if v in ("error-at-close", "crash-at-close"):
+            # the data sits in a buffer (the program's or the kernel's) until the file is closed: the loss shows only then
+            self._held = getattr(self, "_held", [])
+            self._held.append(data)
+            return len(data)
         self._fault = None
         ln = len(data)
         if v in ("torn", "short-error"):
@@ -214,11 +219,46 @@ class _Proxy:
         for ln in lines:
             self.write(ln)
 
+    def _lose_at_close(self):
+        """error-at-close / crash-at-close: of what was written only the first half reaches the file; then the close reports
+        ENOSPC (or the process dies in it)."""
+        f, self._fault = self._fault, None
+        held = getattr(self, "_held", [])
+        self._held = []
+        if f is None or f["variant"] not in ("error-at-close", "crash-at-close"):
+            return
+        if held:
+            data = held[0][:0].join(held)
+            self._f.write(data[:len(data) // 2])
+        try:
+            self._f.flush()
+        except Exception:  # noqa
+            pass
+        S.fired.append((self._n, "open-w", f["variant"]))
+        if f["variant"] == "crash-at-close":
+            _flush_fired()
+            os._exit(CRASH_CODE)
+        try:
+            self._f.close()
+        except Exception:  # noqa
+            pass
+        raise OSError(ERRNOS[f.get("errno", "ENOSPC")], "injected error at close of the file opened at event %d" % self._n)
+
+    def flush(self):
+        if getattr(self, "_held", None):
+            self._lose_at_close()
+        return self._f.flush()
+
+    def close(self):
+        if self._fault is not None and self._fault["variant"] in ("error-at-close", "crash-at-close"):
+            self._lose_at_close()
+        return self._f.close()
+
     def __enter__(self):
         return self
 
     def __exit__(self, *a):
-        self._f.close()
+        self.close()
 
     def __iter__(self):
         return iter(self._f)
